@@ -260,6 +260,15 @@ func (a *AggregationProcess) ForAllExpiredFlowRecordsDo(callback FlowKeyRecordMa
 		return nil
 	}
 	currTime := time.Now()
+	// Items that have to stay in the priority queue are pushed back once the scan is
+	// over (whether it completes or is aborted by the callback), so that no item is
+	// examined twice in one scan and no flow record is left without a queue item.
+	var itemsToPush []*ItemToExpire
+	defer func() {
+		for _, item := range itemsToPush {
+			heap.Push(&a.expirePriorityQueue, item)
+		}
+	}()
 	for a.expirePriorityQueue.Len() > 0 {
 		topItem := a.expirePriorityQueue.Peek()
 		if topItem.activeExpireTime.After(currTime) && topItem.inactiveExpireTime.After(currTime) {
@@ -280,28 +289,27 @@ func (a *AggregationProcess) ForAllExpiredFlowRecordsDo(callback FlowKeyRecordMa
 			} else {
 				pqItem.activeExpireTime = currTime.Add(a.activeExpiryTimeout)
 				pqItem.inactiveExpireTime = currTime.Add(a.inactiveExpiryTimeout)
-				heap.Push(&a.expirePriorityQueue, pqItem)
+				itemsToPush = append(itemsToPush, pqItem)
 			}
 			continue
 		}
 		err := callback(*pqItem.flowKey, pqItem.flowRecord)
 		if err != nil {
+			// The flow record is still in the map: keep its item in the queue.
+			itemsToPush = append(itemsToPush, pqItem)
 			return fmt.Errorf("callback execution failed for popped flow record with key: %v, record: %v, error: %v", pqItem.flowKey, pqItem.flowRecord, err)
 		}
 		// Delete the flow record if it is expired because of inactive expiry timeout.
-		if pqItem.inactiveExpireTime.Before(currTime) {
+		if !pqItem.inactiveExpireTime.After(currTime) {
 			if err = a.deleteFlowKeyFromMapWithoutLock(*pqItem.flowKey); err != nil {
 				return fmt.Errorf("error while deleting flow record after inactive expiry: %v", err)
 			}
 			continue
 		}
-		// Reset the expireTime for the popped item and push it to the priority queue.
-		if pqItem.activeExpireTime.Before(currTime) {
-			// Reset the active expire timeout and push the record into priority
-			// queue.
-			pqItem.activeExpireTime = currTime.Add(a.activeExpiryTimeout)
-			heap.Push(&a.expirePriorityQueue, pqItem)
-		}
+		// The item was popped because of active expiry timeout: reset the active
+		// expire timeout and push the record into priority queue.
+		pqItem.activeExpireTime = currTime.Add(a.activeExpiryTimeout)
+		itemsToPush = append(itemsToPush, pqItem)
 	}
 	return nil
 }
